@@ -221,6 +221,10 @@ func (ctx *Context) makeDetailStr(details []BufferSpan) string {
 	var m []Group
 	for _, i := range details {
 		// fmt.Println("?", i, lastEnd)
+		if i.Begin < 0 || i.Begin > i.End || i.End > IntType(offset) {
+			// 区间不在已解析的文本之内(例如属于被回退的语法分支)，无法对应到原文，跳过
+			continue
+		}
 		if i.Begin > lastEnd {
 			curPoint = i.Begin
 			m = append(m, Group{begin: curPoint, end: i.End, tag: i.Tag, spans: []BufferSpan{i}, val: i.Ret})
